@@ -143,6 +143,12 @@ func vfFlowClientScenario(tb testing.TB, env *vfEnv, tn int, rnd *rand.Rand) {
 	d := &vfFlowCli{env: env, t: tn, tb: tb, reqs: map[uint32]*vfFlowReq{}, sa: map[uint32]int64{}}
 	connBuf := []int{0, 65535, 70000, 1 << 20}[rnd.Intn(4)]
 	strBuf := []int{0, 1, 100, 5000, 65535, 1 << 20}[rnd.Intn(6)]
+	// unevenReads: two responses are read in uneven amounts, so that the connection-level and
+	// the stream-level credit returned by one Read differ (C11: each window gets its own amount).
+	unevenReads := tn%7 == 2
+	if unevenReads {
+		connBuf, strBuf = 1<<20, 65535
+	}
 	tc := newTestClientConn(tb, func(t1 *http.Transport) {
 		t1.HTTP2 = &http.HTTP2Config{MaxReceiveBufferPerConnection: connBuf, MaxReceiveBufferPerStream: strBuf}
 	})
@@ -218,6 +224,63 @@ func vfFlowClientScenario(tb testing.TB, env *vfEnv, tn int, rnd *rand.Rand) {
 	if readHeavy {
 		unit = []int{100, 1000, 4096}[rnd.Intn(3)]
 		nops += 30
+	}
+	if unevenReads && !shrinkMF {
+		var rs []*vfFlowReq
+		for j := 0; j < 2; j++ {
+			r := &vfFlowReq{}
+			r.body = tc.newRequestBody()
+			req, _ := http.NewRequest("POST", "https://dummy.tld/u"+strconv.Itoa(j), r.body)
+			r.rt = tc.roundTrip(req)
+			d.pend = r
+			d.settle()
+			if r.id == 0 || d.dead {
+				break
+			}
+			rs = append(rs, r)
+			r.hdrSent = true
+			tc.writeHeaders(HeadersFrameParam{StreamID: r.id, EndHeaders: true, BlockFragment: tc.makeHeaderBlockFragment(":status", "200")})
+			d.emit(map[string]any{"e": "p_hdr", "s": r.id, "es": false, "decl": -1})
+			d.settle()
+			ln := 9000 + rnd.Intn(2000)
+			pay := make([]byte, ln)
+			for i := range pay {
+				pay[i] = vfPat(r.id, r.sentPay+i)
+			}
+			r.sentPay += ln
+			tc.writeData(r.id, false, pay)
+			d.emit(map[string]any{"e": "p_data", "s": r.id, "len": ln, "pad": 0, "es": false})
+			d.ca -= int64(ln)
+			d.sa[r.id] -= int64(ln)
+			d.settle()
+		}
+		if len(rs) == 2 && !d.dead {
+			// B: below the refresh threshold (held back at both levels); then A: above it
+			for k, r := range []*vfFlowReq{rs[1], rs[0], rs[1]} {
+				if !r.rt.done() {
+					break
+				}
+				if r.resp == nil {
+					resp, err := r.rt.result()
+					if err != nil || resp == nil {
+						break
+					}
+					r.resp = resp
+				}
+				n := []int{2000 + rnd.Intn(2000), 4500 + rnd.Intn(1500), 300 + rnd.Intn(500)}[k]
+				sid, resp := r.id, r.resp
+				d.async(r, func() map[string]any {
+					buf := make([]byte, n)
+					k, err := io.ReadFull(resp.Body, buf)
+					if k <= 0 {
+						_ = err
+						return nil
+					}
+					return map[string]any{"e": "a_read", "s": sid, "n": k, "b0": int(buf[0]), "b1": int(buf[k-1]), "over": false, "left": VfRespBodyBuffered(resp.Body)}
+				})
+				d.settle()
+			}
+		}
 	}
 	for k := 0; k < nops && !d.dead; k++ {
 		var open []*vfFlowReq
